@@ -180,6 +180,19 @@ Theorem C11_json_eqb_reflects : forall a b, json_eqb a b = true <-> a = b.
 Proof. exact json_eqb_eq. Qed.
 Print Assumptions C11_json_eqb_reflects.
 
+(* an observation that coincides with the model's behaviour on a well-formed graph (python-level
+   flags true) passes every clause of the executable oracle holds_graph that the harness
+   evaluates on the implementation: the oracle demands nothing beyond the theorems above *)
+Theorem C11_oracle_accepts_model : forall h g j h' g' o, WF h g ->
+  fst (save_graph h g) = Ok j -> load_graph h j = Ok (h', g') ->
+  o_json o = Some j -> o_after o = snd (save_graph h g) ->
+  o_loaded o = Some (skipn (List.length h) h', g') ->
+  o_resave o = (match fst (save_graph h' g') with Ok j2 => Some j2 | Raise _ => None end) ->
+  o_text_same o = true -> o_descid_same o = true -> o_eq o = true ->
+  holds_graph h g o = [true; true; true; true].
+Proof. exact oracle_accepts_model. Qed.
+Print Assumptions C11_oracle_accepts_model.
+
 (* ---------------------------------------------------------------- non-vacuity *)
 (* ex_heap / ex_graph (Serial/GraphCodecProofs.v): a cyclic graph 0 <- {1, 2}, 1 <- 2, 2 <- 0 with an
    int-named node, listed as [0; 2; 1]; it is well-formed and its round trip is computed *)
